@@ -18,70 +18,70 @@ int *g_base0(void) { return vf_gb0; }    /* ghost hook of vf::gix: the base poin
 
 /*@GROUP name=find props=C06,C02 kind=U mode=contract enforce=etl_find loops=1 standin=find_b timeout=900@*/
 void h_find(void) { int *f, *l, *v; GH(); etl_find(f, l, v); VF_REACH(); }
-/*@GROUP name=find_b props=C06,C02 kind=B bound=len<=4 unwind=6@*/
+/*@GROUP name=find_b props=C06,C02 kind=B bound=len<=4 unwind=6 timeout=600@*/
 void h_find_b(void) { IN1(a, n); VF_INPUT(int, v); int *r = find_int(a, a + n, &v);
   unsigned long i = 0; while (i < n && a_in[i] != v) ++i;
   VF_ASSERT(r == a + i, "C06: find returns the first match, or last"); UNCHANGED(a, n); VF_REACH(); }
 
 /*@GROUP name=find_if props=C06,C02 kind=U mode=contract enforce=etl_find_if loops=1 standin=find_if_b timeout=900@*/
 void h_find_if(void) { int *f, *l; struct vf_pred3 p; GH(); etl_find_if(f, l, p); VF_REACH(); }
-/*@GROUP name=find_if_b props=C06,C02 kind=B bound=len<=4 unwind=6@*/
+/*@GROUP name=find_if_b props=C06,C02 kind=B bound=len<=4 unwind=6 timeout=600@*/
 void h_find_if_b(void) { IN1(a, n); int *r = find_if_p3(a, a + n);
   unsigned long i = 0; while (i < n && !P3(a_in[i])) ++i;
   VF_ASSERT(r == a + i, "C06: find_if returns the first match, or last"); UNCHANGED(a, n); VF_REACH(); }
 
 /*@GROUP name=find_if_not props=C06,C02 kind=U mode=contract enforce=etl_find_if_not loops=1 standin=find_if_not_b timeout=900@*/
 void h_find_if_not(void) { int *f, *l; struct vf_pred3 p; GH(); etl_find_if_not(f, l, p); VF_REACH(); }
-/*@GROUP name=find_if_not_b props=C06,C02 kind=B bound=len<=4 unwind=6@*/
+/*@GROUP name=find_if_not_b props=C06,C02 kind=B bound=len<=4 unwind=6 timeout=600@*/
 void h_find_if_not_b(void) { IN1(a, n); int *r = find_if_not_p3(a, a + n);
   unsigned long i = 0; while (i < n && P3(a_in[i])) ++i;
   VF_ASSERT(r == a + i, "C06: find_if_not returns the first non-match, or last"); UNCHANGED(a, n); VF_REACH(); }
 
 /*@GROUP name=all_of props=C06,C02 kind=U mode=contract enforce=etl_all_of replace=etl_find_if_not standin=all_of_b timeout=900@*/
 void h_all_of(void) { int *f, *l; struct vf_pred3 p; GH(); etl_all_of(f, l, p); VF_REACH(); }
-/*@GROUP name=all_of_b props=C06,C02 kind=B bound=len<=4 unwind=6@*/
+/*@GROUP name=all_of_b props=C06,C02 kind=B bound=len<=4 unwind=6 timeout=600@*/
 void h_all_of_b(void) { IN1(a, n); _Bool r = all_of_p3(a, a + n);
   _Bool e = 1; for (unsigned long i = 0; i < n; ++i) if (!P3(a_in[i])) e = 0;
   VF_ASSERT(r == e, "C06: all_of"); UNCHANGED(a, n); VF_REACH(); }
 
 /*@GROUP name=any_of props=C06,C02 kind=U mode=contract enforce=etl_any_of replace=etl_find_if standin=any_of_b timeout=900@*/
 void h_any_of(void) { int *f, *l; struct vf_pred3 p; GH(); etl_any_of(f, l, p); VF_REACH(); }
-/*@GROUP name=any_of_b props=C06,C02 kind=B bound=len<=4 unwind=6@*/
+/*@GROUP name=any_of_b props=C06,C02 kind=B bound=len<=4 unwind=6 timeout=600@*/
 void h_any_of_b(void) { IN1(a, n); _Bool r = any_of_p3(a, a + n);
   _Bool e = 0; for (unsigned long i = 0; i < n; ++i) if (P3(a_in[i])) e = 1;
   VF_ASSERT(r == e, "C06: any_of"); UNCHANGED(a, n); VF_REACH(); }
 
 /*@GROUP name=none_of props=C06,C02 kind=U mode=contract enforce=etl_none_of replace=etl_find_if standin=none_of_b timeout=900@*/
 void h_none_of(void) { int *f, *l; struct vf_pred3 p; GH(); etl_none_of(f, l, p); VF_REACH(); }
-/*@GROUP name=none_of_b props=C06,C02 kind=B bound=len<=4 unwind=6@*/
+/*@GROUP name=none_of_b props=C06,C02 kind=B bound=len<=4 unwind=6 timeout=600@*/
 void h_none_of_b(void) { IN1(a, n); _Bool r = none_of_p3(a, a + n);
   _Bool e = 1; for (unsigned long i = 0; i < n; ++i) if (P3(a_in[i])) e = 0;
   VF_ASSERT(r == e, "C06: none_of"); UNCHANGED(a, n); VF_REACH(); }
 
 /*@GROUP name=count props=C06,C02 kind=U mode=contract enforce=etl_count loops=1 standin=count_b timeout=900@*/
 void h_count(void) { int *f, *l, *v; GH(); etl_count(f, l, v); VF_REACH(); }
-/*@GROUP name=count_b props=C06,C02 kind=B bound=len<=4 unwind=6@*/
+/*@GROUP name=count_b props=C06,C02 kind=B bound=len<=4 unwind=6 timeout=600@*/
 void h_count_b(void) { IN1(a, n); VF_INPUT(int, v); long r = count_int(a, a + n, &v);
   long e = 0; for (unsigned long i = 0; i < n; ++i) if (a_in[i] == v) ++e;
   VF_ASSERT(r == e, "C06: count returns the number of elements equal to value"); UNCHANGED(a, n); VF_REACH(); }
 
 /*@GROUP name=count_if props=C06,C02 kind=U mode=contract enforce=etl_count_if loops=1 standin=count_if_b timeout=900@*/
 void h_count_if(void) { int *f, *l; struct vf_pred3 p; GH(); etl_count_if(f, l, p); VF_REACH(); }
-/*@GROUP name=count_if_b props=C06,C02 kind=B bound=len<=4 unwind=6@*/
+/*@GROUP name=count_if_b props=C06,C02 kind=B bound=len<=4 unwind=6 timeout=600@*/
 void h_count_if_b(void) { IN1(a, n); long r = count_if_p3(a, a + n);
   long e = 0; for (unsigned long i = 0; i < n; ++i) if (P3(a_in[i])) ++e;
   VF_ASSERT(r == e, "C06: count_if returns the number of elements satisfying the predicate"); UNCHANGED(a, n); VF_REACH(); }
 
 /*@GROUP name=for_each props=C06,C02 kind=U mode=contract enforce=etl_for_each loops=1 standin=for_each_b timeout=900@*/
 void h_for_each(void) { struct vf_idx_int f, l; struct vf_mut1 m; GH(); etl_for_each(f, l, m); VF_REACH(); }
-/*@GROUP name=for_each_b props=C06,C02 kind=B bound=len<=4 unwind=6@*/
+/*@GROUP name=for_each_b props=C06,C02 kind=B bound=len<=4 unwind=6 timeout=600@*/
 void h_for_each_b(void) { IN1(a, n); for_each_mut(a, a + n);
   for (unsigned long i = 0; i < n; ++i) VF_ASSERT(a[i] == OP1(a_in[i]), "C06: for_each applies f to every element exactly once");
   VF_REACH(); }
 
 /*@GROUP name=copy props=C06,C02 kind=U mode=contract enforce=etl_copy loops=1 standin=copy_b timeout=900@*/
 void h_copy(void) { struct vf_idx_int f, l, d; GH(); etl_copy(f, l, d); VF_REACH(); }
-/*@GROUP name=copy_b props=C06,C02 kind=B bound=len<=4 unwind=6@*/
+/*@GROUP name=copy_b props=C06,C02 kind=B bound=len<=4 unwind=6 timeout=600@*/
 void h_copy_b(void) { IN1(a, n); VF_BUF(int, d, n, MAXB); int *r = copy_int(a, a + n, d);
   VF_ASSERT(r == d + n, "C06: copy returns d_first + (last - first)");
   for (unsigned long i = 0; i < n; ++i) VF_ASSERT(d[i] == a_in[i], "C06: copy: d[i] == a[i]");
@@ -96,7 +96,7 @@ void h_copy_b(void) { IN1(a, n); VF_BUF(int, d, n, MAXB); int *r = copy_int(a, a
 
 /*@GROUP name=move props=C06,C02 kind=U mode=contract enforce=etl_move loops=1 standin=move_b timeout=900@*/
 void h_move(void) { XI f, l, d; GH(); etl_move(f, l, d); VF_REACH(); }
-/*@GROUP name=move_b props=C06,C02 kind=B bound=len<=4 unwind=6@*/
+/*@GROUP name=move_b props=C06,C02 kind=B bound=len<=4 unwind=6 timeout=600@*/
 void h_move_b(void) { IN1(a, n); VF_BUF(int, d, n, MAXB); int *r = move_int(a, a + n, d);
   VF_ASSERT(r == d + n, "C06: move returns d_first + (last - first)");
   for (unsigned long i = 0; i < n; ++i) VF_ASSERT(d[i] == a_in[i], "C06: move: d[i] == a[i]");
@@ -104,7 +104,7 @@ void h_move_b(void) { IN1(a, n); VF_BUF(int, d, n, MAXB); int *r = move_int(a, a
 
 /*@GROUP name=copy_backward props=C06,C02 kind=U mode=contract enforce=etl_copy_backward loops=1 standin=copy_backward_b timeout=900@*/
 void h_copy_backward(void) { XI f, l, d; GH(); etl_copy_backward(f, l, d); VF_REACH(); }
-/*@GROUP name=copy_backward_b props=C06,C02 kind=B bound=len<=3 unwind=6@*/
+/*@GROUP name=copy_backward_b props=C06,C02 kind=B bound=len<=3 unwind=6 timeout=600@*/
 void h_copy_backward_b(void) { IN1S(a, n); VF_INPUT(unsigned long, m); VF_ASSUME(m <= n);   /* overlapping: a[0..m) -> a[n-m..n) */
   int *r = copy_backward_int(a, a + m, a + n);
   VF_ASSERT(r == a + (n - m), "C06: copy_backward returns d_last - (last - first)");
@@ -113,7 +113,7 @@ void h_copy_backward_b(void) { IN1S(a, n); VF_INPUT(unsigned long, m); VF_ASSUME
 
 /*@GROUP name=move_backward props=C06,C02 kind=U mode=contract enforce=etl_move_backward loops=1 standin=move_backward_b timeout=900@*/
 void h_move_backward(void) { XI f, l, d; GH(); etl_move_backward(f, l, d); VF_REACH(); }
-/*@GROUP name=move_backward_b props=C06,C02 kind=B bound=len<=3 unwind=6@*/
+/*@GROUP name=move_backward_b props=C06,C02 kind=B bound=len<=3 unwind=6 timeout=600@*/
 void h_move_backward_b(void) { IN1S(a, n); VF_INPUT(unsigned long, m); VF_ASSUME(m <= n);
   int *r = move_backward_int(a, a + m, a + n);
   VF_ASSERT(r == a + (n - m), "C06: move_backward returns d_last - (last - first)");
@@ -124,7 +124,7 @@ void h_move_backward_b(void) { IN1S(a, n); VF_INPUT(unsigned long, m); VF_ASSUME
 void h_copy_n(void) { XI f, d; long c; GH(); etl_copy_n(f, c, d); VF_REACH(); }     /* elements + frame (vf_sel == 0) */
 /*@GROUP name=copy_n_ret props=C06,C02 kind=U mode=contract enforce=etl_copy_n loops=1 standin=copy_n_b timeout=900@*/
 void h_copy_n_ret(void) { XI f, d; long c; GH(); vf_sel = 1; VF_KNOWN(C06_copy_n_return, c > 0); etl_copy_n(f, c, d); VF_REACH(); }   /* + returned iterator */
-/*@GROUP name=copy_n_b props=C06,C02 kind=B bound=len<=4 unwind=6@*/
+/*@GROUP name=copy_n_b props=C06,C02 kind=B bound=len<=4 unwind=6 timeout=600@*/
 void h_copy_n_b(void) { IN1(a, n); VF_BUF(int, d, n, MAXB); VF_INPUT(long, c); VF_ASSUME(c <= 0 ? n == 0 : (unsigned long)c == n);
   int *r = copy_n_int(a, c, d);
   for (unsigned long i = 0; i < n; ++i) VF_ASSERT(d[i] == a_in[i], "C06: copy_n: d[i] == a[i]");
@@ -134,13 +134,13 @@ void h_copy_n_b(void) { IN1(a, n); VF_BUF(int, d, n, MAXB); VF_INPUT(long, c); V
 
 /*@GROUP name=fill props=C06,C02 kind=U mode=contract enforce=etl_fill loops=1 standin=fill_b timeout=900@*/
 void h_fill(void) { XI f, l; int *v; GH(); etl_fill(f, l, v); VF_REACH(); }
-/*@GROUP name=fill_b props=C06,C02 kind=B bound=len<=4 unwind=6@*/
+/*@GROUP name=fill_b props=C06,C02 kind=B bound=len<=4 unwind=6 timeout=600@*/
 void h_fill_b(void) { IN1(a, n); VF_INPUT(int, v); fill_int(a, a + n, &v);
   for (unsigned long i = 0; i < n; ++i) VF_ASSERT(a[i] == v, "C06: fill assigns value to every element"); VF_REACH(); }
 
 /*@GROUP name=fill_n props=C06,C02 kind=U mode=contract enforce=etl_fill_n loops=1 standin=fill_n_b timeout=900@*/
 void h_fill_n(void) { XI f; long c; int *v; GH(); etl_fill_n(f, c, v); VF_REACH(); }
-/*@GROUP name=fill_n_b props=C06,C02 kind=B bound=len<=4 unwind=6@*/
+/*@GROUP name=fill_n_b props=C06,C02 kind=B bound=len<=4 unwind=6 timeout=600@*/
 void h_fill_n_b(void) { IN1(a, n); VF_INPUT(int, v); VF_INPUT(long, c); VF_ASSUME(c <= (long)n);
   int *r = fill_n_int(a, c, &v); unsigned long w = c > 0 ? (unsigned long)c : 0;
   VF_ASSERT(r == a + w, "C06: fill_n returns first + n (first if n <= 0)");
@@ -148,13 +148,13 @@ void h_fill_n_b(void) { IN1(a, n); VF_INPUT(int, v); VF_INPUT(long, c); VF_ASSUM
 
 /*@GROUP name=generate props=C06,C02 kind=U mode=contract enforce=etl_generate loops=1 standin=generate_b timeout=900@*/
 void h_generate(void) { XU f, l; struct vf_gen1 g; GH(); etl_generate(f, l, g); VF_REACH(); }
-/*@GROUP name=generate_b props=C06,C02 kind=B bound=len<=4 unwind=6@*/
+/*@GROUP name=generate_b props=C06,C02 kind=B bound=len<=4 unwind=6 timeout=600@*/
 void h_generate_b(void) { IN1U(a, n); VF_INPUT(unsigned, s); generate_u(a, a + n, s);
   for (unsigned long i = 0; i < n; ++i) VF_ASSERT(a[i] == s + (unsigned)i, "C06: generate assigns successive results of g in order"); VF_REACH(); }
 
 /*@GROUP name=generate_n props=C06,C02 kind=U mode=contract enforce=etl_generate_n loops=1 standin=generate_n_b timeout=900@*/
 void h_generate_n(void) { XU f; long c; struct vf_gen1 g; GH(); etl_generate_n(f, c, g); VF_REACH(); }
-/*@GROUP name=generate_n_b props=C06,C02 kind=B bound=len<=4 unwind=6@*/
+/*@GROUP name=generate_n_b props=C06,C02 kind=B bound=len<=4 unwind=6 timeout=600@*/
 void h_generate_n_b(void) { IN1U(a, n); VF_INPUT(unsigned, s); VF_INPUT(long, c); VF_ASSUME(c <= (long)n);
   unsigned *r = generate_n_u(a, c, s); unsigned long w = c > 0 ? (unsigned long)c : 0;
   VF_ASSERT(r == a + w, "C06: generate_n returns first + n (first if n <= 0)");
@@ -162,7 +162,7 @@ void h_generate_n_b(void) { IN1U(a, n); VF_INPUT(unsigned, s); VF_INPUT(long, c)
 
 /*@GROUP name=transform1 props=C06,C02 kind=U mode=contract enforce=etl_transform1 loops=1 standin=transform1_b timeout=900@*/
 void h_transform1(void) { XI f, l, d; struct vf_op1 o; GH(); etl_transform1(f, l, d, o); VF_REACH(); }
-/*@GROUP name=transform1_b props=C06,C02 kind=B bound=len<=4 unwind=6@*/
+/*@GROUP name=transform1_b props=C06,C02 kind=B bound=len<=4 unwind=6 timeout=600@*/
 void h_transform1_b(void) { IN1(a, n); VF_BUF(int, d, n, MAXB); VF_INPUT_BOOL(inplace); int *o = inplace ? a : d;
   int *r = transform1(a, a + n, o);
   VF_ASSERT(r == o + n, "C06: transform returns result + (last - first)");
@@ -170,7 +170,7 @@ void h_transform1_b(void) { IN1(a, n); VF_BUF(int, d, n, MAXB); VF_INPUT_BOOL(in
 
 /*@GROUP name=transform2 props=C06,C02 kind=U mode=contract enforce=etl_transform2 loops=1 standin=transform2_b timeout=900@*/
 void h_transform2(void) { XI f, l, g, d; struct vf_op2 o; GH(); etl_transform2(f, l, g, d, o); VF_REACH(); }
-/*@GROUP name=transform2_b props=C06,C02 kind=B bound=len<=4 unwind=6@*/
+/*@GROUP name=transform2_b props=C06,C02 kind=B bound=len<=4 unwind=6 timeout=600@*/
 void h_transform2_b(void) { IN1(a, n); VF_BUF(int, b, n, MAXB); VF_BUF(int, d, n, MAXB); VF_INPUT(unsigned char, w); int *o = w == 1 ? a : w == 2 ? b : d;
   int *r = transform2(a, a + n, b, o);
   VF_ASSERT(r == o + n, "C06: transform returns result + (last1 - first1)");
@@ -178,45 +178,45 @@ void h_transform2_b(void) { IN1(a, n); VF_BUF(int, b, n, MAXB); VF_BUF(int, d, n
 
 /*@GROUP name=replace_if props=C06,C02 kind=U mode=contract enforce=etl_replace_if loops=1 standin=replace_if_b timeout=900@*/
 void h_replace_if(void) { XI f, l; struct vf_pred3 p; int *v; GH(); etl_replace_if(f, l, p, v); VF_REACH(); }
-/*@GROUP name=replace_if_b props=C06,C02 kind=B bound=len<=4 unwind=6@*/
+/*@GROUP name=replace_if_b props=C06,C02 kind=B bound=len<=4 unwind=6 timeout=600@*/
 void h_replace_if_b(void) { IN1(a, n); VF_INPUT(int, v); replace_if_p3(a, a + n, &v);
   for (unsigned long i = 0; i < n; ++i) VF_ASSERT(a[i] == (P3(a_in[i]) ? v : a_in[i]), "C06: replace_if"); VF_REACH(); }
 
 /*@GROUP name=replace props=C06,C02 kind=U mode=contract enforce=etl_replace loops=1 standin=replace_b timeout=900@*/
 void h_replace(void) { XI f, l; int *o, *v; GH(); etl_replace(f, l, o, v); VF_REACH(); }
-/*@GROUP name=replace_b props=C06,C02 kind=B bound=len<=4 unwind=6@*/
+/*@GROUP name=replace_b props=C06,C02 kind=B bound=len<=4 unwind=6 timeout=600@*/
 void h_replace_b(void) { IN1(a, n); VF_INPUT(int, o); VF_INPUT(int, v); replace_int(a, a + n, &o, &v);
   for (unsigned long i = 0; i < n; ++i) VF_ASSERT(a[i] == (a_in[i] == o ? v : a_in[i]), "C06: replace"); VF_REACH(); }
 
 /*@GROUP name=swap_ranges props=C06,C02 kind=U mode=contract enforce=etl_swap_ranges loops=1 standin=swap_ranges_b timeout=900@*/
 void h_swap_ranges(void) { XI f, l, g; GH(); etl_swap_ranges(f, l, g); VF_REACH(); }
-/*@GROUP name=swap_ranges_b props=C06,C02 kind=B bound=len<=4 unwind=6@*/
+/*@GROUP name=swap_ranges_b props=C06,C02 kind=B bound=len<=4 unwind=6 timeout=600@*/
 void h_swap_ranges_b(void) { IN1(a, n); VF_BUF(int, b, n, MAXB); int *r = swap_ranges_int(a, a + n, b);
   VF_ASSERT(r == b + n, "C06: swap_ranges returns first2 + (last1 - first1)");
   for (unsigned long i = 0; i < n; ++i) VF_ASSERT(a[i] == b_in[i] && b[i] == a_in[i], "C06: swap_ranges exchanges the elements"); VF_REACH(); }
 
 /*@GROUP name=reverse props=C06,C02 kind=U mode=contract enforce=etl_reverse loops=1 standin=reverse_b timeout=900@*/
 void h_reverse(void) { XI f, l; GH(); etl_reverse(f, l); VF_REACH(); }
-/*@GROUP name=reverse_b props=C06,C02 kind=B bound=len<=3 unwind=6@*/
+/*@GROUP name=reverse_b props=C06,C02 kind=B bound=len<=3 unwind=6 timeout=600@*/
 void h_reverse_b(void) { IN1S(a, n); reverse_int(a, a + n);
   for (unsigned long i = 0; i < n; ++i) VF_ASSERT(a[i] == a_in[n - 1 - i], "C06: reverse"); VF_REACH(); }
 
 /*@GROUP name=reverse_copy props=C06,C02 kind=U mode=contract enforce=etl_reverse_copy loops=1 standin=reverse_copy_b timeout=900@*/
 void h_reverse_copy(void) { XI f, l, d; GH(); etl_reverse_copy(f, l, d); VF_REACH(); }
-/*@GROUP name=reverse_copy_b props=C06,C02 kind=B bound=len<=4 unwind=6@*/
+/*@GROUP name=reverse_copy_b props=C06,C02 kind=B bound=len<=4 unwind=6 timeout=600@*/
 void h_reverse_copy_b(void) { IN1(a, n); VF_BUF(int, d, n, MAXB); int *r = reverse_copy_int(a, a + n, d);
   VF_ASSERT(r == d + n, "C06: reverse_copy returns result + (last - first)");
   for (unsigned long i = 0; i < n; ++i) VF_ASSERT(d[i] == a_in[n - 1 - i], "C06: reverse_copy"); UNCHANGED(a, n); VF_REACH(); }
 
 /*@GROUP name=iota props=C06,C02 kind=U mode=contract enforce=etl_iota loops=1 standin=iota_b timeout=900@*/
 void h_iota(void) { XU f, l; unsigned v; GH(); etl_iota(f, l, v); VF_REACH(); }
-/*@GROUP name=iota_b props=C06,C02 kind=B bound=len<=4 unwind=6@*/
+/*@GROUP name=iota_b props=C06,C02 kind=B bound=len<=4 unwind=6 timeout=600@*/
 void h_iota_b(void) { IN1U(a, n); VF_INPUT(unsigned, v); iota_u(a, a + n, v);
   for (unsigned long i = 0; i < n; ++i) VF_ASSERT(a[i] == v + (unsigned)i, "C06: iota"); VF_REACH(); }
 
 /*@GROUP name=copy_if props=C06,C02 kind=U mode=contract enforce=etl_copy_if loops=1 standin=copy_if_b timeout=900@*/
 void h_copy_if(void) { XI f, l, d; struct vf_pred3 p; GH(); etl_copy_if(f, l, d, p); VF_REACH(); }
-/*@GROUP name=copy_if_b props=C06,C02 kind=B bound=len<=4 unwind=6@*/
+/*@GROUP name=copy_if_b props=C06,C02 kind=B bound=len<=4 unwind=6 timeout=600@*/
 void h_copy_if_b(void) { IN1(a, n); VF_BUF(int, d, n, MAXB); int *r = copy_if_p3(a, a + n, d);
   int e[MAXB + 1]; unsigned long w = 0; for (unsigned long i = 0; i < n; ++i) if (P3(a_in[i])) e[w++] = a_in[i];
   VF_ASSERT(r == d + w, "C06: copy_if returns the end of the resulting range");
@@ -228,21 +228,21 @@ void h_find_if_x(void) { XI f, l; struct vf_pred3 p; GH(); etl_find_if_x(f, l, p
 
 /*@GROUP name=remove_if props=C06,C02 kind=U mode=contract enforce=etl_remove_if loops=1 standin=remove_if_b timeout=900@*/
 void h_remove_if(void) { XI f, l; struct vf_pred3 p; GH(); etl_remove_if(f, l, p); VF_REACH(); }
-/*@GROUP name=remove_if_b props=C06,C02 kind=B bound=len<=3 unwind=6@*/
+/*@GROUP name=remove_if_b props=C06,C02 kind=B bound=len<=3 unwind=6 timeout=600@*/
 void h_remove_if_b(void) { IN1S(a, n); int *r = remove_if_p3(a, a + n);
   unsigned long w = 0; for (unsigned long i = 0; i < n; ++i) if (!P3(a_in[i])) { VF_ASSERT(a[w] == a_in[i], "C06: remove_if keeps exactly the non-matching elements, in order"); ++w; }
   VF_ASSERT(r == a + w, "C06: remove_if returns the end of the resulting range"); VF_REACH(); }
 
 /*@GROUP name=remove props=C06,C02 kind=U mode=contract enforce=etl_remove loops=1 standin=remove_b timeout=900@*/
 void h_remove(void) { XI f, l; int *v; GH(); etl_remove(f, l, v); VF_REACH(); }
-/*@GROUP name=remove_b props=C06,C02 kind=B bound=len<=3 unwind=6@*/
+/*@GROUP name=remove_b props=C06,C02 kind=B bound=len<=3 unwind=6 timeout=600@*/
 void h_remove_b(void) { IN1S(a, n); VF_INPUT(int, v); int *r = remove_int(a, a + n, &v);
   unsigned long w = 0; for (unsigned long i = 0; i < n; ++i) if (a_in[i] != v) { VF_ASSERT(a[w] == a_in[i], "C06: remove keeps exactly the elements != value, in order"); ++w; }
   VF_ASSERT(r == a + w, "C06: remove returns the end of the resulting range"); VF_REACH(); }
 
 /*@GROUP name=remove_copy_if props=C06,C02 kind=U mode=contract enforce=etl_remove_copy_if loops=1 standin=remove_copy_if_b timeout=900@*/
-void h_remove_copy_if(void) { XI f, l, d; struct vf_pred3 p; GH(); VF_KNOWN(C06_remove_copy_if_holes, 1); etl_remove_copy_if(f, l, d, p); VF_REACH(); }
-/*@GROUP name=remove_copy_if_b props=C06,C02 kind=B bound=len<=4 unwind=6@*/
+void h_remove_copy_if(void) { XI f, l, d; struct vf_pred3 p; GH(); etl_remove_copy_if(f, l, d, p); VF_REACH(); }
+/*@GROUP name=remove_copy_if_b props=C06,C02 kind=B bound=len<=4 unwind=6 timeout=600@*/
 void h_remove_copy_if_b(void) { IN1(a, n); VF_BUF(int, d, n, MAXB);
   int e[MAXB + 1]; unsigned long w = 0; for (unsigned long i = 0; i < n; ++i) if (!P3(a_in[i])) e[w++] = a_in[i];
   VF_KNOWN(C06_remove_copy_if_holes, w != n);               /* some element satisfies the predicate */
@@ -252,8 +252,8 @@ void h_remove_copy_if_b(void) { IN1(a, n); VF_BUF(int, d, n, MAXB);
   UNCHANGED(a, n); VF_REACH(); }
 
 /*@GROUP name=remove_copy props=C06,C02 kind=U mode=contract enforce=etl_remove_copy loops=1 standin=remove_copy_b timeout=900@*/
-void h_remove_copy(void) { XI f, l, d; int *v; GH(); VF_KNOWN(C06_remove_copy_if_holes, 1); etl_remove_copy(f, l, d, v); VF_REACH(); }
-/*@GROUP name=remove_copy_b props=C06,C02 kind=B bound=len<=4 unwind=6@*/
+void h_remove_copy(void) { XI f, l, d; int *v; GH(); etl_remove_copy(f, l, d, v); VF_REACH(); }
+/*@GROUP name=remove_copy_b props=C06,C02 kind=B bound=len<=4 unwind=6 timeout=600@*/
 void h_remove_copy_b(void) { IN1(a, n); VF_BUF(int, d, n, MAXB); VF_INPUT(int, v);
   int e[MAXB + 1]; unsigned long w = 0; for (unsigned long i = 0; i < n; ++i) if (a_in[i] != v) e[w++] = a_in[i];
   VF_KNOWN(C06_remove_copy_if_holes, w != n);               /* some element equals value */
@@ -264,7 +264,7 @@ void h_remove_copy_b(void) { IN1(a, n); VF_BUF(int, d, n, MAXB); VF_INPUT(int, v
 
 /*@GROUP name=unique props=C06,C02 kind=U mode=contract enforce=etl_unique loops=1 standin=unique_b timeout=900@*/
 void h_unique(void) { XI f, l; GH(); etl_unique(f, l); VF_REACH(); }
-/*@GROUP name=unique_b props=C06,C02 kind=B bound=len<=4 unwind=6@*/
+/*@GROUP name=unique_b props=C06,C02 kind=B bound=len<=4 unwind=6 timeout=600@*/
 void h_unique_b(void) { IN1(a, n); int *r = unique_int(a, a + n);
   int e[MAXB + 1]; unsigned long w = 0; for (unsigned long i = 0; i < n; ++i) if (i == 0 || a_in[i] != a_in[i - 1]) e[w++] = a_in[i];
   VF_ASSERT(r == a + w, "C06: unique returns the end of the resulting range");
@@ -272,7 +272,7 @@ void h_unique_b(void) { IN1(a, n); int *r = unique_int(a, a + n);
 
 /*@GROUP name=unique_copy props=C06,C02 kind=U mode=contract enforce=etl_unique_copy loops=1 standin=unique_copy_b timeout=900@*/
 void h_unique_copy(void) { XI f, l, d; GH(); etl_unique_copy(f, l, d); VF_REACH(); }
-/*@GROUP name=unique_copy_b props=C06,C02 kind=B bound=len<=4 unwind=6@*/
+/*@GROUP name=unique_copy_b props=C06,C02 kind=B bound=len<=4 unwind=6 timeout=600@*/
 void h_unique_copy_b(void) { IN1(a, n); VF_BUF(int, d, n, MAXB); int *r = unique_copy_int(a, a + n, d);
   int e[MAXB + 1]; unsigned long w = 0; for (unsigned long i = 0; i < n; ++i) if (i == 0 || a_in[i] != a_in[i - 1]) e[w++] = a_in[i];
   VF_ASSERT(r == d + w, "C06: unique_copy returns the end of the resulting range");
@@ -281,7 +281,7 @@ void h_unique_copy_b(void) { IN1(a, n); VF_BUF(int, d, n, MAXB); int *r = unique
 
 /*@GROUP name=partial_sum props=C06,C02 kind=U mode=contract enforce=etl_partial_sum loops=1 standin=partial_sum_b timeout=900@*/
 void h_partial_sum(void) { XU f, l, d; GH(); etl_partial_sum(f, l, d); VF_REACH(); }
-/*@GROUP name=partial_sum_b props=C06,C02 kind=B bound=len<=4 unwind=6@*/
+/*@GROUP name=partial_sum_b props=C06,C02 kind=B bound=len<=4 unwind=6 timeout=600@*/
 void h_partial_sum_b(void) { IN1U(a, n); VF_BUF(unsigned, d, n, MAXB); VF_INPUT_BOOL(inplace); unsigned *o = inplace ? a : d;
   unsigned *r = partial_sum_u(a, a + n, o); unsigned s = 0;
   VF_ASSERT(r == o + n, "C06: partial_sum returns result + (last - first)");
@@ -289,7 +289,7 @@ void h_partial_sum_b(void) { IN1U(a, n); VF_BUF(unsigned, d, n, MAXB); VF_INPUT_
 
 /*@GROUP name=adjacent_difference props=C06,C02 kind=U mode=contract enforce=etl_adjacent_difference loops=1 standin=adjacent_difference_b timeout=900@*/
 void h_adjacent_difference(void) { XU f, l, d; GH(); etl_adjacent_difference(f, l, d); VF_REACH(); }
-/*@GROUP name=adjacent_difference_b props=C06,C02 kind=B bound=len<=4 unwind=6@*/
+/*@GROUP name=adjacent_difference_b props=C06,C02 kind=B bound=len<=4 unwind=6 timeout=600@*/
 void h_adjacent_difference_b(void) { IN1U(a, n); VF_BUF(unsigned, d, n, MAXB); VF_INPUT_BOOL(inplace); unsigned *o = inplace ? a : d;
   unsigned *r = adjacent_difference_u(a, a + n, o);
   VF_ASSERT(r == o + n, "C06: adjacent_difference returns result + (last - first)");
@@ -300,42 +300,42 @@ void h_adjacent_difference_b(void) { IN1U(a, n); VF_BUF(unsigned, d, n, MAXB); V
 
 /*@GROUP name=mismatch3 props=C06,C02 kind=U mode=contract enforce=etl_mismatch3 loops=1 standin=mismatch3_b timeout=900@*/
 void h_mismatch3(void) { int *f, *l, *g; GH(); etl_mismatch3(f, l, g); VF_REACH(); }
-/*@GROUP name=mismatch3_b props=C06,C02 kind=B bound=len<=4 unwind=6@*/
+/*@GROUP name=mismatch3_b props=C06,C02 kind=B bound=len<=4 unwind=6 timeout=600@*/
 void h_mismatch3_b(void) { IN1(a, n); VF_BUF(int, b, n, MAXB); struct vf_pii r; mismatch3(a, a + n, b, &r);
   unsigned long i = 0; while (i < n && a_in[i] == b_in[i]) ++i;
   VF_ASSERT(r.a == a + i && r.b == b + i, "C06: mismatch returns the first position where the ranges differ"); UNCHANGED(a, n); UNCHANGED(b, n); VF_REACH(); }
 
 /*@GROUP name=mismatch4 props=C06,C02 kind=U mode=contract enforce=etl_mismatch4 loops=1 standin=mismatch4_b timeout=900@*/
 void h_mismatch4(void) { int *f, *l, *g, *h; GH(); etl_mismatch4(f, l, g, h); VF_REACH(); }
-/*@GROUP name=mismatch4_b props=C06,C02 kind=B bound=len<=4 unwind=6@*/
+/*@GROUP name=mismatch4_b props=C06,C02 kind=B bound=len<=4 unwind=6 timeout=600@*/
 void h_mismatch4_b(void) { IN2(a, n, b, m); struct vf_pii r; mismatch4(a, a + n, b, b + m, &r);
   unsigned long i = 0; while (i < n && i < m && a_in[i] == b_in[i]) ++i;
   VF_ASSERT(r.a == a + i && r.b == b + i, "C06: mismatch (two ends) returns the first difference or the end of the shorter range"); VF_REACH(); }
 
 /*@GROUP name=equal3 props=C06,C02 kind=U mode=contract enforce=etl_equal3 loops=1 standin=equal3_b timeout=900@*/
 void h_equal3(void) { int *f, *l, *g; GH(); etl_equal3(f, l, g); VF_REACH(); }
-/*@GROUP name=equal3_b props=C06,C02 kind=B bound=len<=4 unwind=6@*/
+/*@GROUP name=equal3_b props=C06,C02 kind=B bound=len<=4 unwind=6 timeout=600@*/
 void h_equal3_b(void) { IN1(a, n); VF_BUF(int, b, n, MAXB); _Bool r = equal3(a, a + n, b);
   _Bool e = 1; for (unsigned long i = 0; i < n; ++i) if (a_in[i] != b_in[i]) e = 0;
   VF_ASSERT(r == e, "C06: equal"); VF_REACH(); }
 
 /*@GROUP name=equal4 props=C06,C02 kind=U mode=contract enforce=etl_equal4 loops=1 standin=equal4_b timeout=900@*/
 void h_equal4(void) { int *f, *l, *g, *h; GH(); etl_equal4(f, l, g, h); VF_REACH(); }
-/*@GROUP name=equal4_b props=C06,C02 kind=B bound=len<=4 unwind=6@*/
+/*@GROUP name=equal4_b props=C06,C02 kind=B bound=len<=4 unwind=6 timeout=600@*/
 void h_equal4_b(void) { IN2(a, n, b, m); _Bool r = equal4(a, a + n, b, b + m);
   _Bool e = n == m; for (unsigned long i = 0; i < n && i < m; ++i) if (a_in[i] != b_in[i]) e = 0;
   VF_ASSERT(r == e, "C06: equal (two ends): same length and equal elements"); VF_REACH(); }
 
 /*@GROUP name=adjacent_find props=C06,C02 kind=U mode=contract enforce=etl_adjacent_find loops=1 standin=adjacent_find_b timeout=900@*/
 void h_adjacent_find(void) { int *f, *l; GH(); etl_adjacent_find(f, l); VF_REACH(); }
-/*@GROUP name=adjacent_find_b props=C06,C02 kind=B bound=len<=4 unwind=6@*/
+/*@GROUP name=adjacent_find_b props=C06,C02 kind=B bound=len<=4 unwind=6 timeout=600@*/
 void h_adjacent_find_b(void) { IN1(a, n); int *r = adjacent_find_int(a, a + n);
   unsigned long i = 0; while (i + 1 < n && a_in[i] != a_in[i + 1]) ++i;
   VF_ASSERT(r == (i + 1 < n ? a + i : a + n), "C06: adjacent_find returns the first i with a[i] == a[i+1], or last"); UNCHANGED(a, n); VF_REACH(); }
 
 /*@GROUP name=lexicographical_compare props=C06,C02 kind=U mode=contract enforce=etl_lexcmp loops=1 standin=lexicographical_compare_b timeout=900@*/
 void h_lexicographical_compare(void) { int *f, *l, *g, *h; GH(); etl_lexcmp(f, l, g, h); VF_REACH(); }
-/*@GROUP name=lexicographical_compare_b props=C06,C02 kind=B bound=len<=4 unwind=6@*/
+/*@GROUP name=lexicographical_compare_b props=C06,C02 kind=B bound=len<=4 unwind=6 timeout=600@*/
 void h_lexicographical_compare_b(void) { IN2(a, n, b, m); _Bool r = lexcmp(a, a + n, b, b + m);
   unsigned long i = 0; while (i < n && i < m && a_in[i] == b_in[i]) ++i;
   _Bool e = (i < n && i < m) ? a_in[i] < b_in[i] : (i == n && i < m);
@@ -343,72 +343,72 @@ void h_lexicographical_compare_b(void) { IN2(a, n, b, m); _Bool r = lexcmp(a, a 
 
 /*@GROUP name=min_element props=C06,C02 kind=U mode=contract enforce=etl_min_element loops=1 standin=min_element_b timeout=900@*/
 void h_min_element(void) { XG f, l; GH(); etl_min_element(f, l); VF_REACH(); }
-/*@GROUP name=min_element_b props=C06,C02 kind=B bound=len<=4 unwind=6@*/
+/*@GROUP name=min_element_b props=C06,C02 kind=B bound=len<=4 unwind=6 timeout=600@*/
 void h_min_element_b(void) { IN1(a, n); int *r = min_element_int(a, a + n);
   unsigned long e = 0; for (unsigned long i = 1; i < n; ++i) if (a_in[i] < a_in[e]) e = i;
   VF_ASSERT(r == (n ? a + e : a + n), "C06: min_element returns the first smallest element, last if empty"); UNCHANGED(a, n); VF_REACH(); }
 
 /*@GROUP name=max_element props=C06,C02 kind=U mode=contract enforce=etl_max_element loops=1 standin=max_element_b timeout=900@*/
 void h_max_element(void) { XG f, l; GH(); etl_max_element(f, l); VF_REACH(); }
-/*@GROUP name=max_element_b props=C06,C02 kind=B bound=len<=4 unwind=6@*/
+/*@GROUP name=max_element_b props=C06,C02 kind=B bound=len<=4 unwind=6 timeout=600@*/
 void h_max_element_b(void) { IN1(a, n); int *r = max_element_int(a, a + n);
   unsigned long e = 0; for (unsigned long i = 1; i < n; ++i) if (a_in[e] < a_in[i]) e = i;
   VF_ASSERT(r == (n ? a + e : a + n), "C06: max_element returns the first largest element, last if empty"); UNCHANGED(a, n); VF_REACH(); }
 
 /*@GROUP name=max_element_gt props=C06,C02 kind=U mode=contract enforce=etl_max_element_gt loops=1 standin=max_element_gt_b timeout=900@*/
 void h_max_element_gt(void) { XG f, l; struct etl_greater c; GH(); etl_max_element_gt(f, l, c); VF_REACH(); }
-/*@GROUP name=max_element_gt_b props=C06,C02 kind=B bound=len<=4 unwind=6@*/
+/*@GROUP name=max_element_gt_b props=C06,C02 kind=B bound=len<=4 unwind=6 timeout=600@*/
 void h_max_element_gt_b(void) { IN1(a, n); int *r = max_element_gt(a, a + n);
   unsigned long e = 0; for (unsigned long i = 1; i < n; ++i) if (a_in[e] > a_in[i]) e = i;
   VF_ASSERT(r == (n ? a + e : a + n), "C06: max_element(greater) returns the first element that is largest w.r.t. greater"); VF_REACH(); }
 
 /*@GROUP name=is_sorted_until props=C06,C02 kind=U mode=contract enforce=etl_is_sorted_until loops=1 standin=is_sorted_until_b timeout=900@*/
 void h_is_sorted_until(void) { int *f, *l; GH(); etl_is_sorted_until(f, l); VF_REACH(); }
-/*@GROUP name=is_sorted_until_b props=C06,C02 kind=B bound=len<=4 unwind=6@*/
+/*@GROUP name=is_sorted_until_b props=C06,C02 kind=B bound=len<=4 unwind=6 timeout=600@*/
 void h_is_sorted_until_b(void) { IN1(a, n); int *r = is_sorted_until_int(a, a + n);
   unsigned long i = n ? 1 : 0; while (i < n && !(a_in[i] < a_in[i - 1])) ++i;
   VF_ASSERT(r == a + i, "C06: is_sorted_until returns the end of the longest sorted prefix"); UNCHANGED(a, n); VF_REACH(); }
 
 /*@GROUP name=is_sorted_until_gt props=C06,C02 kind=U mode=contract enforce=etl_is_sorted_until_gt loops=1 standin=is_sorted_until_gt_b timeout=900@*/
 void h_is_sorted_until_gt(void) { int *f, *l; struct etl_greater c; GH(); etl_is_sorted_until_gt(f, l, c); VF_REACH(); }
-/*@GROUP name=is_sorted_until_gt_b props=C06,C02 kind=B bound=len<=4 unwind=6@*/
+/*@GROUP name=is_sorted_until_gt_b props=C06,C02 kind=B bound=len<=4 unwind=6 timeout=600@*/
 void h_is_sorted_until_gt_b(void) { IN1(a, n); int *r = is_sorted_until_gt(a, a + n);
   unsigned long i = n ? 1 : 0; while (i < n && !(a_in[i] > a_in[i - 1])) ++i;
   VF_ASSERT(r == a + i, "C06: is_sorted_until(greater)"); VF_REACH(); }
 
 /*@GROUP name=is_sorted props=C06,C02 kind=U mode=contract enforce=etl_is_sorted replace=etl_is_sorted_until standin=is_sorted_b timeout=900@*/
 void h_is_sorted(void) { int *f, *l; GH(); etl_is_sorted(f, l); VF_REACH(); }
-/*@GROUP name=is_sorted_b props=C06,C02 kind=B bound=len<=4 unwind=6@*/
+/*@GROUP name=is_sorted_b props=C06,C02 kind=B bound=len<=4 unwind=6 timeout=600@*/
 void h_is_sorted_b(void) { IN1(a, n); _Bool r = is_sorted_int(a, a + n);
   _Bool e = 1; for (unsigned long i = 1; i < n; ++i) if (a_in[i] < a_in[i - 1]) e = 0;
   VF_ASSERT(r == e, "C06: is_sorted"); VF_REACH(); }
 
 /*@GROUP name=is_partitioned props=C06,C02 kind=U mode=contract enforce=etl_is_partitioned loops=1 standin=is_partitioned_b timeout=900 solver=kissat@*/
 void h_is_partitioned(void) { XI f, l; struct vf_pred3 p; GH(); etl_is_partitioned(f, l, p); VF_REACH(); }
-/*@GROUP name=is_partitioned_b props=C06,C02 kind=B bound=len<=4 unwind=6@*/
+/*@GROUP name=is_partitioned_b props=C06,C02 kind=B bound=len<=4 unwind=6 timeout=600@*/
 void h_is_partitioned_b(void) { IN1(a, n); _Bool r = is_partitioned_p3(a, a + n);
   _Bool e = 1; for (unsigned long i = 1; i < n; ++i) if (P3(a_in[i]) && !P3(a_in[i - 1])) e = 0;
   VF_ASSERT(r == e, "C06: is_partitioned"); VF_REACH(); }
 
 /*@GROUP name=partition_point props=C06,C02 kind=U mode=contract enforce=etl_partition_point loops=1 standin=partition_point_b timeout=900@*/
 void h_partition_point(void) { int *f, *l; struct vf_pred3 p; GH(); etl_partition_point(f, l, p); VF_REACH(); }
-/*@GROUP name=partition_point_b props=C06,C02 kind=B bound=len<=4 unwind=6@*/
+/*@GROUP name=partition_point_b props=C06,C02 kind=B bound=len<=4 unwind=6 timeout=600@*/
 void h_partition_point_b(void) { IN1(a, n); for (unsigned long i = 1; i < n; ++i) VF_ASSUME(!(P3(a_in[i]) && !P3(a_in[i - 1])));   /* partitioned */
   int *r = partition_point_p3(a, a + n);
   unsigned long c = 0; for (unsigned long i = 0; i < n; ++i) if (P3(a_in[i])) ++c;
   VF_ASSERT(r == a + c, "C06: partition_point returns the end of the first partition"); VF_REACH(); }
 
-/*@GROUP name=clamp props=C06,C02 kind=F mode=contract enforce=etl_clamp standin=clamp_b@*/
+/*@GROUP name=clamp props=C06,C02 kind=F mode=contract enforce=etl_clamp standin=clamp_b timeout=600@*/
 void h_clamp(void) { int *v, *lo, *hi; etl_clamp(v, lo, hi); VF_REACH(); }
 /*@GROUP name=clamp_b props=C06,C02 kind=F@*/
 void h_clamp_b(void) { VF_INPUT(int, v); VF_INPUT(int, lo); VF_INPUT(int, hi); VF_ASSUME(!(hi < lo)); const int *r = clamp_int(&v, &lo, &hi);
   VF_ASSERT(r == (v < lo ? &lo : hi < v ? &hi : &v), "C06: clamp returns lo if v < lo, hi if hi < v, otherwise v"); VF_REACH(); }
 
-/*@GROUP name=min props=C06,C02 kind=F mode=contract enforce=etl_min standin=minmax_b@*/
+/*@GROUP name=min props=C06,C02 kind=F mode=contract enforce=etl_min standin=minmax_b timeout=600@*/
 void h_min(void) { int *a, *b; etl_min(a, b); VF_REACH(); }
-/*@GROUP name=max props=C06,C02 kind=F mode=contract enforce=etl_max standin=minmax_b@*/
+/*@GROUP name=max props=C06,C02 kind=F mode=contract enforce=etl_max standin=minmax_b timeout=600@*/
 void h_max(void) { int *a, *b; etl_max(a, b); VF_REACH(); }
-/*@GROUP name=minmax props=C06,C02 kind=F mode=contract enforce=etl_minmax standin=minmax_b@*/
+/*@GROUP name=minmax props=C06,C02 kind=F mode=contract enforce=etl_minmax standin=minmax_b timeout=600@*/
 void h_minmax(void) { int *a, *b; etl_minmax(a, b); VF_REACH(); }
 /*@GROUP name=minmax_b props=C06,C02 kind=F@*/
 void h_minmax_b(void) { VF_INPUT(int, a); VF_INPUT(int, b); const int *lo, *hi; minmax_int(&a, &b, &lo, &hi);
@@ -421,39 +421,39 @@ void h_minmax_b(void) { VF_INPUT(int, a); VF_INPUT(int, b); const int *lo, *hi; 
 
 /*@GROUP name=lower_bound props=C06,C02 kind=U mode=contract enforce=etl_lower_bound loops=1 standin=lower_bound_b timeout=900@*/
 void h_lower_bound(void) { XG f, l; int *v; struct etl_less c; GH(); etl_lower_bound(f, l, v, c); VF_REACH(); }
-/*@GROUP name=lower_bound_b props=C06,C02 kind=B bound=len<=4 unwind=6 solver=kissat@*/
+/*@GROUP name=lower_bound_b props=C06,C02 kind=B bound=len<=4 unwind=6 solver=kissat timeout=600@*/
 void h_lower_bound_b(void) { IN1(a, n); SORTED(a, n); VF_INPUT(int, v); int *r = lower_bound_int(a, a + n, &v);
   unsigned long i = 0; while (i < n && a_in[i] < v) ++i;
   VF_ASSERT(r == a + i, "C06: lower_bound returns the first position whose element is not less than value"); UNCHANGED(a, n); VF_REACH(); }
 
 /*@GROUP name=upper_bound props=C06,C02 kind=U mode=contract enforce=etl_upper_bound loops=1 standin=upper_bound_b timeout=900@*/
 void h_upper_bound(void) { XG f, l; int *v; struct etl_less c; GH(); etl_upper_bound(f, l, v, c); VF_REACH(); }
-/*@GROUP name=upper_bound_b props=C06,C02 kind=B bound=len<=4 unwind=6 solver=kissat@*/
+/*@GROUP name=upper_bound_b props=C06,C02 kind=B bound=len<=4 unwind=6 solver=kissat timeout=600@*/
 void h_upper_bound_b(void) { IN1(a, n); SORTED(a, n); VF_INPUT(int, v); int *r = upper_bound_int(a, a + n, &v);
   unsigned long i = 0; while (i < n && !(v < a_in[i])) ++i;
   VF_ASSERT(r == a + i, "C06: upper_bound returns the first position whose element is greater than value"); UNCHANGED(a, n); VF_REACH(); }
 
 /*@GROUP name=binary_search props=C06,C02 kind=U mode=contract enforce=etl_binary_search replace=etl_lower_bound standin=binary_search_b timeout=900@*/
 void h_binary_search(void) { XG f, l; int *v; struct etl_less c; GH(); etl_binary_search(f, l, v, c); VF_REACH(); }
-/*@GROUP name=binary_search_b props=C06,C02 kind=B bound=len<=4 unwind=6 solver=kissat@*/
+/*@GROUP name=binary_search_b props=C06,C02 kind=B bound=len<=4 unwind=6 solver=kissat timeout=600@*/
 void h_binary_search_b(void) { IN1(a, n); SORTED(a, n); VF_INPUT(int, v); _Bool r = binary_search_int(a, a + n, &v);
   _Bool e = 0; for (unsigned long i = 0; i < n; ++i) if (a_in[i] == v) e = 1;
   VF_ASSERT(r == e, "C06: binary_search returns whether an element equivalent to value exists"); VF_REACH(); }
 
 /*@GROUP name=equal_range props=C06,C02 kind=U mode=contract enforce=etl_equal_range loops=1 standin=equal_range_b timeout=900@*/
 void h_equal_range(void) { XG f, l; int *v; struct etl_less c; GH(); etl_equal_range(f, l, v, c); VF_REACH(); }
-/*@GROUP name=equal_range_b props=C06,C02 kind=B bound=len<=4 unwind=6 solver=kissat@*/
+/*@GROUP name=equal_range_b props=C06,C02 kind=B bound=len<=4 unwind=6 solver=kissat timeout=600@*/
 void h_equal_range_b(void) { IN1(a, n); SORTED(a, n); VF_INPUT(int, v); struct vf_pii r; equal_range_int(a, a + n, &v, &r);
   unsigned long i = 0; while (i < n && a_in[i] < v) ++i; unsigned long j = i; while (j < n && !(v < a_in[j])) ++j;
   VF_ASSERT(r.a == a + i && r.b == a + j, "C06: equal_range returns [lower_bound, upper_bound)"); VF_REACH(); }
 
 /*@GROUP name=accumulate props=C06,C02 kind=U mode=contract enforce=etl_accumulate loops=1 standin=accumulate_b timeout=900@*/
 void h_accumulate(void) { unsigned *f, *l, i; GH(); etl_accumulate(f, l, i); VF_REACH(); }
-/*@GROUP name=accumulate_b props=C06,C02 kind=B bound=len<=4 unwind=6@*/
+/*@GROUP name=accumulate_b props=C06,C02 kind=B bound=len<=4 unwind=6 timeout=600@*/
 void h_accumulate_b(void) { IN1U(a, n); VF_INPUT(unsigned, s); unsigned r = accumulate_u(a, a + n, s);
   unsigned e = s; for (unsigned long i = 0; i < n; ++i) e += a_in[i];
   VF_ASSERT(r == e, "C06: accumulate returns init + a[0] + ... + a[n-1]"); VF_REACH(); }
-/*@GROUP name=accumulate_int_b props=C06,C02 kind=B bound=len<=4,|values|<2^28 unwind=6@*/
+/*@GROUP name=accumulate_int_b props=C06,C02 kind=B bound=len<=4,|values|<2^28 unwind=6 timeout=600@*/
 void h_accumulate_int_b(void) { IN1(a, n); VF_INPUT(int, s); VF_ASSUME(s > -(1 << 28) && s < (1 << 28));
   for (unsigned long i = 0; i < n; ++i) VF_ASSUME(a_in[i] > -(1 << 28) && a_in[i] < (1 << 28));      /* signed overflow in accumulate is the caller's UB */
   int r = accumulate_i(a, a + n, s); int e = s; for (unsigned long i = 0; i < n; ++i) e += a_in[i];
@@ -461,14 +461,14 @@ void h_accumulate_int_b(void) { IN1(a, n); VF_INPUT(int, s); VF_ASSUME(s > -(1 <
 
 /*@GROUP name=accumulate_op props=C06,C02 kind=U mode=contract enforce=etl_accumulate_op loops=1 standin=accumulate_op_b timeout=900@*/
 void h_accumulate_op(void) { int *f, *l, i; struct vf_op2 o; GH(); etl_accumulate_op(f, l, i, o); VF_REACH(); }
-/*@GROUP name=accumulate_op_b props=C06,C02 kind=B bound=len<=4 unwind=6@*/
+/*@GROUP name=accumulate_op_b props=C06,C02 kind=B bound=len<=4 unwind=6 timeout=600@*/
 void h_accumulate_op_b(void) { IN1(a, n); VF_INPUT(int, s); int r = accumulate_op(a, a + n, s);
   int e = s; for (unsigned long i = 0; i < n; ++i) e = OP2(e, a_in[i]);
   VF_ASSERT(r == e, "C06: accumulate(op) folds from the left: op(op(init, a[0]), a[1]) ..."); VF_REACH(); }
 
 /*@GROUP name=inner_product props=C06,C02 kind=U mode=contract enforce=etl_inner_product loops=1 standin=inner_product_b timeout=900@*/
 void h_inner_product(void) { unsigned *f, *l, *g, i; GH(); etl_inner_product(f, l, g, i); VF_REACH(); }
-/*@GROUP name=inner_product_b props=C06,C02 kind=B bound=len<=3 unwind=6 solver=kissat@*/
+/*@GROUP name=inner_product_b props=C06,C02 kind=B bound=len<=3 unwind=6 solver=kissat timeout=600@*/
 void h_inner_product_b(void) { VF_INPUT(unsigned long, n); VF_ASSUME(n <= 3); VF_BUF(unsigned, a, n, MAXB); VF_BUF(unsigned, b, n, MAXB); VF_INPUT(unsigned, s);
   unsigned r = inner_product_u(a, a + n, b, s); unsigned e = s; for (unsigned long i = 0; i < n; ++i) e += a_in[i] * b_in[i];
   VF_ASSERT(r == e, "C06: inner_product returns init + sum a[i]*b[i]"); VF_REACH(); }
@@ -477,7 +477,18 @@ void h_inner_product_b(void) { VF_INPUT(unsigned long, n); VF_ASSUME(n <= 3); VF
 void h_reduce(void) { unsigned *f, *l, i; GH(); etl_reduce(f, l, i); VF_REACH(); }
 /*@GROUP name=reduce0 props=C06,C02 kind=U mode=contract enforce=etl_reduce0 replace=etl_reduce standin=reduce_b timeout=900@*/
 void h_reduce0(void) { unsigned *f, *l; GH(); etl_reduce0(f, l); VF_REACH(); }
-/*@GROUP name=reduce_b props=C06,C02 kind=B bound=len<=4 unwind=6@*/
+/*@GROUP name=reduce_b props=C06,C02 kind=B bound=len<=4 unwind=6 timeout=600@*/
 void h_reduce_b(void) { IN1U(a, n); VF_INPUT(unsigned, s); unsigned r = reduce_u(a, a + n, s), r0 = reduce0_u(a, a + n);
   unsigned e = 0; for (unsigned long i = 0; i < n; ++i) e += a_in[i];
   VF_ASSERT(r == s + e && r0 == e, "C06: reduce returns init + the sum of the elements (init defaults to 0)"); VF_REACH(); }
+
+/*@GROUP name=minmax_element props=C06,C02 kind=U mode=contract enforce=etl_minmax_element loops=1 standin=minmax_element_b timeout=900@*/
+void h_minmax_element(void) { XG f, l; GH(); etl_minmax_element(f, l); VF_REACH(); }
+/*@GROUP name=minmax_element_b props=C06,C02 kind=B bound=len<=3 unwind=5 timeout=600@*/
+void h_minmax_element_b(void) { IN1S(a, n); struct vf_pii r; minmax_element_int(a, a + n, &r);
+  if (n == 0) { VF_ASSERT(r.a == a && r.b == a, "C06: minmax_element of an empty range returns {first, first}"); }
+  else { VF_ASSERT(r.a >= a && r.a < a + n && r.b >= a && r.b < a + n, "C06: minmax_element returns iterators into the range");
+    for (unsigned long i = 0; i < n; ++i) {
+      VF_ASSERT(!(a_in[i] < *r.a) && (a + i >= r.a || *r.a < a_in[i]), "C06: minmax_element: first is the FIRST smallest element");
+      VF_ASSERT(!(*r.b < a_in[i]) && (a + i <= r.b || a_in[i] < *r.b), "C06: minmax_element: second is the LAST largest element"); } }
+  UNCHANGED(a, n); VF_REACH(); }
